@@ -177,3 +177,27 @@ theorem get?_isSome_iff_contains {α} (m : AMap α) (k : String) : (m.get? k).is
   rw [contains_eq_isSome]; rfl
 
 end AMap
+
+namespace AMap
+
+theorem mem_insert {α} (m : AMap α) (k : String) (v : α) (p : String × α) (h : p ∈ m.insert k v) : p ∈ m ∨ p = (k, v) := by
+  unfold insert at h
+  split at h
+  · obtain ⟨q, hq, rfl⟩ := List.mem_map.mp h
+    by_cases hk : (q.1 == k) = true
+    · simp [hk]
+    · simp only [hk]; exact Or.inl hq
+  · rcases List.mem_append.mp h with h1 | h1
+    · exact Or.inl h1
+    · simp at h1; exact Or.inr h1
+
+theorem get?_insert {α} (m : AMap α) (k : String) (v : α) (n : String) :
+    (m.insert k v).get? n = if n = k then some v else m.get? n := lookup_insert m k v n
+
+theorem get?_insert_self {α} (m : AMap α) (k : String) (v : α) : (m.insert k v).get? k = some v := by
+  rw [get?_insert]; simp
+
+theorem get?_insert_ne {α} (m : AMap α) (k : String) (v : α) (n : String) (h : n ≠ k) : (m.insert k v).get? n = m.get? n := by
+  rw [get?_insert]; simp [h]
+
+end AMap
